@@ -21,8 +21,12 @@ def generate(r):
     entries = []
     files = {}
     n = r.randint(4, 18)
+    queued = []      # the remaining steps of scenarios that span several entries, in order
     for i in range(n):
-        kinds = ["let", "fn", "class", "bad", "mod", "closure", "fiber", "badimport"]
+        if queued and r.random() < 0.5:
+            entries.append(queued.pop(0))
+            continue
+        kinds = ["let", "fn", "class", "bad", "mod", "closure", "fiber", "badimport", "workers", "abandoned"]
         if classes:
             kinds += ["obj", "sub", "obj"]
         if objs:
@@ -116,6 +120,28 @@ def generate(r):
                 gfns.append(name)
             else:
                 fns.append(name)
+        elif k == "workers" and not any("jobs" in e[0] for e in queued):
+            # consumers launched on one line stay parked on a channel across lines; a later line hands out one job and
+            # closes the channel, a still later one collects what every consumer reports (the sum does not depend on who
+            # got the job)
+            consumers = r.randint(2, 3)
+            job = r.randint(3, 9)
+            entries.append(["let jobs%d = chan(%s); let res%d = chan(8);" % (i, r.choice(["", "1", "4"]), i), True])
+            queued.append(["fn cons%d() { let v = <- jobs%d; while v != nil { res%d <- v; v = <- jobs%d; } res%d <- -1; }" % ((i,) * 5), True])
+            launch = " ".join("launch cons%d();" % i for _ in range(consumers))
+            if r.random() < 0.5:
+                # the consumers get to run (and park) before the line ends
+                launch += " if true { let t = chan(1); launch (|| { t <- 1; })(); <- t; }"
+            queued.append([launch, True])
+            queued.append(["jobs%d <- %d; jobs%d.close();" % (i, job, i), True])
+            queued.append(["print('sum', %s);" % " + ".join("<- res%d" % i for _ in range(consumers + 1)), True])
+        elif k == "abandoned" and not any("ab" in e[0] for e in queued):
+            # a fiber launched by a line raises while the line is parked on a channel: the line is given up with an error.
+            # The session stays usable, in particular the channel: a later line that sends to it runs to its end
+            entries.append(["let ab%d = chan(); fn bad%d() { raise Error('worker failed'); }" % (i, i), True])
+            queued.append(["launch bad%d(); print('got', <- ab%d);" % (i, i), False, "launch (|| { print('got', <- ab%d); })();" % i])
+            queued.append(["ab%d <- %d; let answer%d = %d; print('sent');" % (i, r.randint(1, 9), i, 40 + i), True])
+            queued.append(["print(answer%d);" % i, True])
         elif k == "latefiber":
             # a fiber launched by one entry and not run yet when the entry ends; a later entry communicates with it
             entries.append(["fn lw%d(ch, n) { for j in n.times() { ch <- j * %d; } } let lch%d = chan(2); launch lw%d(lch%d, 2);" % (
@@ -149,12 +175,16 @@ def generate(r):
             m = r.choice(mods)
             entries.append(["print('mod', %s.use(%d), %s.tag);" % (m, r.randint(1, 9), m), True])
         elif k == "badimport":
-            which = r.choice(["missing", "broken"])
-            if which == "missing":
-                entries.append(["import self.nowhere%d;" % i, False])
+            which = r.choice(["missing", "broken", "again", "again"])
+            failed = [e[0].split(";")[0] for e in entries if e[0].startswith("import self.nowhere") or e[0].startswith("import self.broken")]
+            if which == "again" and failed:
+                # a failed import fails again however often it is repeated: nothing of the first attempt is left behind
+                entries.append(["%s; print('unreachable');" % r.choice(failed), False])
+            elif which == "missing" or which == "again":
+                entries.append(["import self.nowhere%d; print('unreachable');" % i, False])
             else:
                 files["/sim/broken%d.lay" % i] = "export fn oops( { 1 }\n"
-                entries.append(["import self.broken%d;" % i, False])
+                entries.append(["import self.broken%d; print('unreachable');" % i, False])
         else:
             b = r.choice(["undef", "syntax", "raise", "callnil", "redecl", "undefprop", "arity"])
             if b == "undef":
@@ -173,6 +203,7 @@ def generate(r):
                 entries.append(["%s(1, 2, 3); print('unreachable');" % r.choice(fns), False])
             else:
                 entries.append(["let = 4;", False])
+    entries += queued
     return entries, files
 
 
